@@ -356,6 +356,8 @@ static void explore_cfg(Ctx &c, const Cfg &cfg){
             h.loadNeededValues(model_values(kind, h.getNeededPoints(), cfg.dims, 2)); c.transitions++; c.states++;
             check_state(c, cfg, h, "make(outs=2) load");
             h.updateGrid(cfg.depth + 1, cfg.type, cfg.aw); c.transitions++;
+            // values loaded and a refinement pending: weights, points and the declared space all still describe the loaded points
+            if (h.getNumNeeded() > 0 && h.getNumLoaded() > 0){ c.states++; check_state(c, cfg, h, "make(outs=2) load update(depth+1) [refinement pending]"); }
             if (h.getNumNeeded() > 0 && h.getNumNeeded() < 2500){
                 if (cfg.fam == F_GLOBAL && OneDimensionalMeta::isNonNested(cfg.rule)){ /* non-nested: loading replaces the grid, values at all points are required */ }
                 h.loadNeededValues(model_values(kind, h.getNeededPoints(), cfg.dims, 2)); c.transitions++; c.states++;
